@@ -43,6 +43,20 @@ type config struct {
 	IDs string `json:"id_style,omitempty"`
 	// LogLevel: the gateway's log level (LOG_LEVEL), output discarded; "" / "off" = logging disabled
 	LogLevel string `json:"log_level,omitempty"`
+	// Nested (with Second): the two independent quotas have filters of their own that both match the transactions
+	// (h.com/c): "main-exact" = the concurrency quota on h.com/c, the second quota on h.com/*; "second-exact" =
+	// the other way round; "" = both on h.com/*
+	Nested string `json:"nested_quota_filters,omitempty"`
+}
+
+func (c config) quotaURLs() (mainURL, secondURL string) {
+	switch c.Nested {
+	case "main-exact":
+		return "h.com/c", "h.com/*"
+	case "second-exact":
+		return "h.com/*", "h.com/c"
+	}
+	return "h.com/*", "h.com/*"
 }
 
 // idStyle is the id style of the case that is running (set where the case starts, like the clock)
@@ -100,6 +114,7 @@ func effGC(sec int64) time.Duration {
 }
 
 func (c config) quotaYAML() string {
+	mainURL, secondURL := c.quotaURLs()
 	// an expiry / collector interval of 0 means "not configured": the documented defaults (60 s / 30 s) apply
 	conc := func(indent string, max, exp, gc int64) string {
 		y := fmt.Sprintf("%sstrategy:\n%s  concurrent:\n%s    max_request_count: %d\n", indent, indent, indent, max)
@@ -113,20 +128,20 @@ func (c config) quotaYAML() string {
 	}
 	second := ""
 	if c.Second != "" {
-		second = "  - id: QF\n    filter:\n      url: \"h.com/*\"\n    strategy:\n      fixed_window:\n        max: 100000\n        interval: 1\n        interval_unit: minute\n"
+		second = "  - id: QF\n    filter:\n      url: \"" + secondURL + "\"\n    strategy:\n      fixed_window:\n        max: 100000\n        interval: 1\n        interval_unit: minute\n"
 	}
 	if strings.HasPrefix(c.Second, "conc-") {
 		// the second quota is a concurrency quota as well (it never refuses: 100000 slots, one hour)
-		second = "  - id: QF\n    filter:\n      url: \"h.com/*\"\n    strategy:\n      concurrent:\n        max_request_count: 100000\n        request_expiration_sec: 3600\n        gc_interval_sec: 3600\n"
+		second = "  - id: QF\n    filter:\n      url: \"" + secondURL + "\"\n    strategy:\n      concurrent:\n        max_request_count: 100000\n        request_expiration_sec: 3600\n        gc_interval_sec: 3600\n"
 	}
 	if !c.Parent {
-		return "quotas:\n  - id: QC\n    filter:\n      url: \"h.com/*\"\n" + conc("    ", c.Max, c.ExpireSec, c.GCSec) + second
+		return "quotas:\n  - id: QC\n    filter:\n      url: \"" + mainURL + "\"\n" + conc("    ", c.Max, c.ExpireSec, c.GCSec) + second
 	}
 	if c.Mixed {
-		return "quotas:\n  - id: QP\n    filter:\n      url: \"h.com/*\"\n" + conc("    ", c.PMax, c.PExpire, c.PGC) + second +
+		return "quotas:\n  - id: QP\n    filter:\n      url: \"" + mainURL + "\"\n" + conc("    ", c.PMax, c.PExpire, c.PGC) + second +
 			"internal_limits:\n  - id: QC\n    parent_id: QP\n    strategy:\n      fixed_window:\n        max: 100000\n        interval: 1\n        interval_unit: minute\n"
 	}
-	return "quotas:\n  - id: QP\n    filter:\n      url: \"h.com/*\"\n" + conc("    ", c.PMax, c.PExpire, c.PGC) + second +
+	return "quotas:\n  - id: QP\n    filter:\n      url: \"" + mainURL + "\"\n" + conc("    ", c.PMax, c.PExpire, c.PGC) + second +
 		"internal_limits:\n  - id: QC\n    parent_id: QP\n" + conc("    ", c.Max, c.ExpireSec, c.GCSec)
 }
 
@@ -277,6 +292,9 @@ func genConfig() *rapid.Generator[config] {
 			}
 		}
 		c.Second = rapid.SampledFrom([]string{"", "", "after", "before", "conc-after", "conc-before"}).Draw(t, "second")
+		if c.Second != "" {
+			c.Nested = rapid.SampledFrom([]string{"", "main-exact", "second-exact"}).Draw(t, "nested")
+		}
 		c.Cluster = rapid.SampledFrom([]string{"none", "none", "gw-7f3a", "", ""}).Draw(t, "cluster")
 		c.IDs = rapid.SampledFrom([]string{"", "", "", "nested", "nested", "free", "colon"}).Draw(t, "ids")
 		c.LogLevel = loglevel.Gen().Draw(t, "log level")
